@@ -17,12 +17,12 @@ LEVEL = "exploration"
 RULE = ("cases = ordered annotation tables (rows over a small grid of example, annotation, start, length) x "
         "settings, and (alphabet, k, sequence) for kmers; enumerated completely, duplicate-free by construction; "
         "non-trivial = the table has >= 2 rows in one example (pair counting exercised) or the sequence has >= 1 k-mer")
-ASSUMPTIONS = ["annotation spans have length >= 1", "counts stay within the dtype range (int64 used for comparisons; default uint8 checked on the same small counts)",
+ASSUMPTIONS = ["annotation spans have length >= 1, except in the spacing/zero_length shard (zero-length spans that do not share their start with another span of the same example)", "counts stay within the dtype range (int64 used for comparisons; default uint8 checked on the same small counts)",
                "kmers: the index of a k-mer is recovered from the n^k single-occurrence calls (must be a bijection) since it is not documented"]
 
 
 def bound(tier):
-    return ("count/pairwise: all tables <=3 rows over 3 examples x 3 annotations; spacing: all 2-row tables over (2 ex,3 ann,start 0..4,len 1..3) + 3-row tables on a reduced grid; kmers L<=5"
+    return ("count/pairwise: all tables <=3 rows over 3 examples x 3 annotations; spacing: all 2-row tables over (2 ex,3 ann,start 0..4,len 1..3) + 3-row tables on a reduced grid; zero-length spans: all 2-3 row tables over (2 ann,start 0..4,len 0 or 3); kmers L<=5"
             if tier == "quick" else
             "count/pairwise: all tables <=4 rows (5 rows on 2x2 grid); spacing: all tables <=3 rows over (2 ex,3 ann,start 0..4,len 1..3), 4-row tables on a reduced grid; kmers all sequences L<=6, A in 2..4, k<=4")
 
@@ -33,6 +33,7 @@ def shards(tier, seed):
         out.append(dict(name="count_pairwise/rows5small", kind="cp", rows=5, small=True, weight=4 ** 5))
     grid = [(e, a, s, l) for e in range(2) for a in range(3) for s in range(5) for l in (1, 2, 3)]
     out.append(dict(name="spacing/rows1-2", kind="sp", rows=[1, 2], grid="full", first=None, weight=8100))
+    out.append(dict(name="spacing/zero_length", kind="sp", rows=[2, 3], grid="zero", first=None, weight=8400))
     if tier == "quick":
         out.append(dict(name="spacing/rows3red", kind="sp", rows=[3], grid="red", first=None, weight=8000))
     else:
@@ -168,6 +169,11 @@ def run_sp(rec, sh, tier):
         grid = [(e, a, s, s + l) for e in range(2) for a in range(3) for s in range(5) for l in (1, 2, 3)]
     elif sh["grid"] == "red":
         grid = [(0, a, s, s + l) for a in range(2) for s in range(5) for l in (1, 2)]
+    elif sh["grid"] == "zero":
+        # zero-length annotations (start == end): strictly inside another span (overlapping: nothing), abutting on the left (gap 0),
+        # apart.  Tables in which a zero-length span shares its start with another span of the same example are left out: which of
+        # the two is "left" is then not defined by the statement (and the pinned code answers by row order).
+        grid = [(0, a, s, s + l) for a in range(2) for s in range(5) for l in (0, 3)]
     else:
         grid = [(0, a, s, s + l) for a in range(2) for s in (0, 1, 3, 4) for l in (1, 2)]
     for k in sh["rows"]:
@@ -176,6 +182,12 @@ def run_sp(rec, sh, tier):
         else:
             it = itertools.product(grid, repeat=k)
         for tab in it:
+            if sh["grid"] == "zero":
+                if any(tab[i][2] == tab[j][2] and (tab[i][3] == tab[i][2] or tab[j][3] == tab[j][2]) for i in range(k) for j in range(i + 1, k)):
+                    rec.count("zero_length_tables_left_out_equal_start")
+                    continue
+                rec.count("zero_length_span_strictly_inside_another",
+                          sum(1 for i in range(k) for j in range(k) if i != j and tab[j][2] == tab[j][3] and tab[i][2] < tab[j][2] < tab[i][3]))
             X = torch.tensor(tab, dtype=torch.int64)
             na = max(r[1] for r in tab) + 1
             for md in (1, 2, 3):
